@@ -18,19 +18,9 @@ from ..names import unresolved_globals
 
 MOD = "irispie.series._temporal"
 
-x, y, a = sym("x"), sym("y"), sym("a")
+from ..formulas import FORMULAS as _ALL_FORMULAS, x, y, a
 
-# Documented formulas (docstrings of the methods / property statement); a = periods per year
-FORMULAS = {
-    "diff": sub(x, y),
-    "adiff": mul(a, sub(x, y)),
-    "diff_log": sub(app("log", x), app("log", y)),
-    "adiff_log": mul(a, sub(app("log", x), app("log", y))),
-    "roc": div(x, y),
-    "aroc": pow_(div(x, y), a),
-    "pct": mul(num(100), sub(div(x, y), num(1))),
-    "apct": mul(num(100), sub(pow_(div(x, y), a), num(1))),
-}
+FORMULAS = {k: v for k, v in _ALL_FORMULAS.items() if k not in ("none", "log")}
 
 
 def _change_lambda(f: ast.FunctionDef):
